@@ -117,7 +117,16 @@ func (s *Server) handleConnection(ctx context.Context, conn net.Conn) {
 		return
 	}
 
-	s.stats.incrementConnections()
+	// Take the connection slot only now (after successful authentication), but
+	// do it atomically with the limit check. The slot is given back exactly
+	// once, however the connection ends.
+	if err := s.stats.reserveConnection(); err != nil {
+		dlog.Server.Error(err)
+		sshConn.Close()
+		return
+	}
+	defer s.stats.decrementConnections()
+
 	go gossh.DiscardRequests(reqs)
 	for newChannel := range chans {
 		go s.handleChannel(ctx, sshConn, newChannel)
@@ -207,7 +216,6 @@ func (s *Server) handleRequests(ctx context.Context, sshConn gossh.Conn,
 				if err := sshConn.Wait(); err != nil && err != io.EOF {
 					dlog.Server.Error(user, err)
 				}
-				s.stats.decrementConnections()
 				dlog.Server.Info(user, "Good bye Mister!")
 				terminate()
 			}()
